@@ -20,10 +20,31 @@ type Rule func(c *core.Ctx)
 
 var Registry = map[string]Rule{}
 
-func register(id string, r Rule) { Registry[id] = r }
+// register adds the property's rule; the command-layer contract (Engine D) of the commands that expose
+// the property's behaviour is checked with it (C18, C19: every command).
+func register(id string, r Rule) {
+	Registry[id] = func(c *core.Ctx) {
+		r(c)
+		var paths []string
+		for _, s := range cmdSpecs {
+			for _, p := range s.props {
+				if p == id || id == "C18" || id == "C19" {
+					paths = append(paths, s.path)
+					break
+				}
+			}
+		}
+		if len(paths) > 0 {
+			c.Explanation("Engine D (command layer): the RunE literal of " + strings.Join(paths, ", ") + " is interpreted under scenarios of flag values (every flag distinct and non-default; all defaults; each boolean on/off; each input unopenable; command-specific option values; each repeated with the library call failing), with cobra/pflag/os modelled, gfio.OpenIn/OpenOut interpreted from source and every exported library function replaced by a recorder. Obligations: the recorded call equals the call specified over the user-visible flag names (entry point, each argument position, each file opened for reading / created-and-truncated / standard stream); invalid option values and unopenable files make RunE fail before any library call; an error from the library call is what RunE returns (deferred calls included).")
+			checkCmdContract(c, "D", paths...)
+		}
+	}
+}
 
 func newEval(c *core.Ctx) *eval.Evaluator {
-	return eval.New(c.Fset, c.FuncDecl)
+	ev := eval.New(c.Fset, c.FuncDecl)
+	ev.VarInit = c.VarInit
+	return ev
 }
 
 // evalFunc interprets pkg.name(args...) and reports an undecided obligation on failure.
